@@ -17,6 +17,12 @@ CHECKS = {
             "3.C03", "reference model + facade correct; 2-3 nodes, times {0,1,2}, windows over [0,3], widths 1..4"),
     "C04": (MC, "E2+E1", "explicit-state model checking of MultiplexHypergraph: closure over (node set, layer) records with every transition replayed on the real class; aggregated hypergraph, edge overlap and the layer registry compared after every step, and the multiplex object re-observed after the derivations",
             "3.C04", "reference model + facade correct; 2-3 nodes, layers {a,b}(,c); layer registry compared by bounds (in use <= registry <= ever seen)"),
+    "C05": (EX, "E4", "bounded-exhaustive enumeration: every small Hypergraph/DirectedHypergraph content (built directly and by a detour history) x every node subset, orders/sizes list, (order|size, up_to, keep_isolated_nodes), largest component, copy + mutations on either side; results compared with the selection computed by definition; source re-observed after every extraction",
+            "3.C05", "expected results computed from the content descriptor; 3-4 nodes + isolated node, <=3 (quick) / <=4 (thorough) hyperedges"),
+    "C06": (EX, "E4", "bounded-exhaustive enumeration: every small content of the four container types x {json, binary} x {direct, detour} x {int, str labels} x {plain, JSON-rich metadata}; all .hgr files of a small grammar with comment/blank-line insertions at every position; all small HIF documents; loaded object compared with the saved content / file by definition",
+            "3.C06", "files in a per-worker temporary directory; metadata compared modulo the reserved keys weight/time/layer"),
+    "C07": (MC, "E1 (content-grouped)", "explicit-state exploration of all four real containers over the C01-C04 alphabets; states grouped by publicly observable content, up to 3-4 representatives with different private tables expanded, (content, hash) recorded for the target of every transition: one hash per content (all histories agree), one content per hash (across types), hashing leaves the content unchanged",
+            "3.C07", "content = what the public query API reports, including weights' numeric type and the full hypergraph-level metadata"),
 }
 PENDING = {}
 for i in range(1, 21):
